@@ -95,6 +95,11 @@ CHECKS = {
         technique='runtime monitoring in four modes: (registry) fresh WorkerRegistry with a recording dict logging every mutation from inside its critical section, driven by controlled threads under the deterministic scheduler, offline checker for dead-stays-dead / monotone heartbeats / linearizable get; (liveness) CourierClient with stub futures and a settable clock, is_alive compared with a 10-line reference model over random histories with late completions; (ownership) pools sharing workers under the scheduler with pre-emption between check and act, belief-based single-owner log; (poolops) pool operations over the simulated transport must leave no worker acquired',
         text='3k registry schedules, 15k liveness queries, 6k ownership schedules and 48 pool operations per quick run; x30 thorough.',
         note='Trusted: scheduler shim, stub transport futures, fake clock.'),
+    'C03': dict(
+        category='exploration', design_ref='DESIGN.md §3.2, §3.3, §4 C03', engine='E2-deterministic-scheduler',
+        technique='runtime differential monitor across execution strategies: the same generated pipeline (exact integer aggregators) runs single-threaded fused (reference, also against an independent plain-Python evaluation), with num_threads 1-4 under the deterministic scheduler (shard fan-out and shared thread-safe iterator, 26 explored schedules per configuration) and on native threads, as fused vs chained named stages, over make(shard=i/k) for all shards with merged states, and through the in-process interleaved stage runner; batch multisets and aggregates must agree',
+        text='40k strategy runs per quick run (10k explored schedules), 940k thorough.',
+        note='Element-wise operators, pre-batched records, no re-batching, no sinks.'),
 }
 
 NOT_APPLICABLE = {}
